@@ -94,7 +94,7 @@ class C12(ProgramProperty):
     configs = ('A', 'B')
     technique = ('model-comparison property testing: Hypothesis/PyGen programs (every node kind, optional fields present/absent, lists of length 0/1/many) run through '
                  'identity fold, a tagging fold, a tracing Visitor and the optimiser; compared with an independent ASDL-derived walk and a reference optimiser')
-    level_text = ('~15k (quick) / 300k (thorough) generated programs on the all-nodes-with-ranges and the default build: identity fold returns an equal tree; the '
+    level_text = ('~40k (quick) / 300k (thorough) generated programs on the all-nodes-with-ranges and the default build: identity fold returns an equal tree; the '
                   'range-mapping callback runs exactly once per range-carrying node and every node keeps its place; the default Visitor reaches every statement, '
                   'expression, pattern and handler exactly once; the optimiser equals a 15-line reference and is idempotent')
     level_note = 'the walk used as the model is generated from Python.asdl independently of gen/fold.rs and gen/visitor.rs; trees come from the parser (C01)'
@@ -102,7 +102,7 @@ class C12(ProgramProperty):
             'or a constant tuple; distinct by case hash; node-kind and field-cardinality tables in classes')
 
     def budget(self, tier):
-        return 15000 if tier == 'quick' else 300000
+        return 40000 if tier == 'quick' else 300000
 
     def avoid(self):
         return set()
